@@ -306,7 +306,7 @@ Theorem compile_jumps_ok_sized mapenv : forall n e, esize e < n -> compilable e 
 Proof.
   induction n as [|n IH]; intros e Hsz Hc; [lia|].
   destruct e; cbn [esize] in Hsz; cbn [compilable] in Hc; rewrite ?lsize_eq in Hsz.
-  all: try (apply Jok_leaf; intros; cbn; try destruct b; try destruct mapenv; try destruct nilsafe; reflexivity).
+  all: try (apply Jok_leaf; intros; cbn; try destruct b; try destruct mapenv; try destruct nilsafe; try destruct v; reflexivity).
   - apply Jok_unary. apply IH; [lia|destruct op; auto; discriminate].
   - assert (Hl : compilable e1 = true /\ compilable e2 = true).
     { destruct op; try discriminate; apply andb_prop in Hc; exact Hc. }
